@@ -120,5 +120,64 @@ def cases_finalize(tier, rng):
     yield from cases_stats(tier, rng)
 
 
+def run_finalize_proc(S, case):
+    """BOUNDED: per-process statistics (resource_monitor_stats.process = true).  A process is sampled only in the rounds in which it is
+    alive, so its mean is its own sum over its OWN number of samples; the report carries that count, and max / min / mean per cell."""
+    import json, os, tempfile, shutil
+    cpu = RM.CpuStatsViewer.metric()
+    rounds = case["rounds"]                       # list of {process name: {stat: value}}
+    st = {"i": 0}
+    orig, orig_p = RM.ResourceMonitorAggregator._get_stats, RM.ResourceMonitorAggregator._get_process_stats
+    RM.ResourceMonitorAggregator._get_stats = lambda self: {cpu: {"pct": 1.0}}
+
+    def fake_proc(self, ids):
+        k = st["i"]
+        st["i"] += 1
+        return {p: dict(d) for p, d in rounds[k].items()}
+    RM.ResourceMonitorAggregator._get_process_stats = fake_proc
+    tmp = tempfile.mkdtemp(prefix="verif_stats_")
+    os.makedirs(os.path.join(tmp, RM.STATS_DIR))
+    failed = []
+    try:
+        agg = RM.ResourceMonitorAggregator.__new__(RM.ResourceMonitorAggregator)
+        RM.ResourceMonitor.__init__ = lambda self, name: setattr(self, "_name", name) or None
+        RM.ResourceMonitorAggregator.__init__(agg, "b", ResourceMonitorStats(cpu=True, memory=False, disk=False, network=False, process=True))
+        for _ in rounds:
+            agg.update_resource_stats(ids={})
+        agg.finalize(tmp)
+        rows = json.load(open(os.path.join(tmp, RM.STATS_DIR, "b_resource_stats.json")))
+        procs = sorted({p for r in rounds for p in r})
+        for p in procs:
+            ent = [r for r in rows if r.get("type") == RM.ProcessStatsViewer.metric() and r.get("name") == p]
+            if len(ent) != 1:
+                failed.append(f"{len(ent)} report entries for process {p}, expected exactly one")
+                continue
+            own = [r[p] for r in rounds if p in r]
+            if ent[0].get("samples") != len(own):
+                failed.append(f"process {p}: samples = {ent[0].get('samples')}, it was sampled {len(own)} times")
+            for sn in own[0]:
+                vals = [d[sn] for d in own]
+                want = {"maximum": max(vals), "minimum": min(vals), "average": sum(vals) / len(vals)}
+                for k, w in want.items():
+                    got = ent[0].get(k, {}).get(sn)
+                    if got is None or abs(got - w) > 1e-9 * max(1.0, abs(w)):
+                        failed.append(f"process {p} cell {sn}.{k} = {got}, true value {w} for its samples {vals} ({len(rounds)} rounds in total)")
+        return {"pre_ok": True, "ok": not failed, "failed": failed}
+    finally:
+        RM.ResourceMonitorAggregator._get_stats, RM.ResourceMonitorAggregator._get_process_stats = orig, orig_p
+        shutil.rmtree(tmp, ignore_errors=True)
+
+
+def cases_finalize_proc(tier, rng):
+    for _ in range(40 if tier == "quick" else 400):
+        n = rng.randint(1, 6)
+        procs = ["p%d" % i for i in range(rng.randint(1, 3))]
+        rounds = [{p: {"cpu_percent": float(rng.randint(0, 100)), "rss": float(rng.randint(1, 10**6))} for p in procs if rng.random() < 0.6} for _ in range(n)]
+        if not any(rounds):
+            rounds[0] = {procs[0]: {"cpu_percent": 5.0, "rss": 7.0}}
+        yield {"rounds": rounds}
+
+
 HARNESSES = {"ResourceMonitorAggregator.update_resource_stats": (cases_stats, run_stats),
-             "ResourceMonitorAggregator.finalize": (cases_finalize, run_finalize)}
+             "ResourceMonitorAggregator.finalize": (cases_finalize, run_finalize),
+             "ResourceMonitorAggregator.finalize/process": (cases_finalize_proc, run_finalize_proc)}
